@@ -174,6 +174,19 @@ def build_m2(fault, arg, acc, other, ios_pub, eph_seed, pin_seed):
         sig = acc.sign(other_pk + acc.id + ios_pub)
         extra = (hap.T_PK, other_pk)
         kw["sub_edit"] = lambda sub: ([extra] if arg == "first" else []) + [(hap.T_ID, acc.id), (hap.T_SIG, sig)] + ([extra] if arg == "last" else [])
+    elif f == "split-foreign":
+        # one field of the honest reply cut in two pieces (at byte `cut`) with a foreign item spliced in between: to a TLV8 reader these are two
+        # separate (short) values, not the authentic one
+        which, mid, cut = arg
+        it, _, _ = hap.pv_m2(acc, eph_seed, ios_pub)
+        parts = []
+        for t, v in it:
+            if t == which:
+                c = cut if cut >= 0 else len(v) + cut
+                parts += [(t, v[:c]), (mid, b"" if mid == 255 else b"\x01"), (t, v[c:])]
+            else:
+                parts.append((t, v))
+        return b"".join(tlv8.encode([x]) for x in parts), honest, shared, acc_pub
     elif f == "m2-state-alter":
         it, _, _ = hap.pv_m2(acc, eph_seed, ios_pub)
         alt = STATE_ALTER[arg](b"\x02")
@@ -415,7 +428,38 @@ def case_fresh(p):
     return out
 
 
-CASES = {"verify": case_verify, "resume": case_resume, "fresh": case_fresh}
+def case_reconn(p):
+    """One execution of the reconnection harness (vt/env/reconn.py), judged only by its 'c01:' invariants: the pairing reports connected only on
+    a connection whose pair-verify the accessory has completed, and no application request ever travels in the clear."""
+    from vt import explore
+    from vt.env import reconn
+
+    h, menus, trace, v = explore.run_default(lambda: reconn.ReconnH(p), tuple(p.get("choices", ())))
+    try:
+        if not v:
+            v = h.finish()
+        return [(s_, dict(detail=d, trace=trace)) for s_, d in v if s_.startswith("c01:")]
+    finally:
+        h.close()
+
+
+def _work_reconn(item, seed, tier):
+    from vt import explore
+    from vt.env import reconn
+
+    acc = core.Acc()
+    p, root, max_dev = item
+    tmp = core.Acc()
+    explore.explore_dev(lambda: reconn.ReconnH(p), tmp, max_dev=max_dev, case="reconn", params=p, root=root)
+    tmp.viol = [v for v in tmp.viol if v["signature"].startswith("c01:")]
+    for k in list(tmp.viol_count):
+        if not k.startswith("c01:"):
+            del tmp.viol_count[k]
+    acc.merge(tmp)
+    return acc
+
+
+CASES = {"verify": case_verify, "resume": case_resume, "fresh": case_fresh, "reconn": case_reconn}
 from vt.props import c01_e2e  # noqa: E402
 
 CASES.update(c01_e2e.CASES)
@@ -469,6 +513,7 @@ def faults(quick, seed):
     f += [("replay-sig", None), ("replay-sig-other-acc-eph", None), ("replay-whole", None), ("mitm-own-dh", None)]
     f += [("pk-len", n) for n in (0, 1, 31, 33, 64)] + [("pk-zero", None), ("pk-other", None)]
     f += [("enc-wrong-key", None)] + [("enc-wrong-nonce", n) for n in ("PV-Msg03", "PV-Msg01", "PS-Msg06")]
+    f += [("split-foreign", (which, mid, cut)) for which in (hap.T_PK, hap.T_ENC, hap.T_STATE) for mid in (255, 0x80, 8, 1) for cut in (1, 16, -1)]
     f += [("m4-state-bitflip", b) for b in range(8)]
     f += [("m4-extra", t) for t in (hap.T_STATE, 1, 9)]
     f += [("m4-error", bytes([c])) for c in range(256)] + [("m4-error", b""), ("m4-error", b"\x02\x00"), ("m4-error", b"\x00\x02")]
@@ -508,6 +553,16 @@ def run(ctx):
     work += c01_e2e.plan()
     work += [("fresh", [{"rec": r, "eph": 0, "style": st, "fault": "fresh"}]) for r in recs for st in pairdrv.STYLES]
     ctx.pmap(_work, work)
+    # the verified session as the connection layer uses it: through reconnects in which the step AFTER a successful pair-verify fails (the
+    # re-subscription is refused / cut off) and the next connection's pair-verify is still in flight when callers look
+    from vt.props import c10 as _c10
+
+    rc = [
+        (dict(hosts=["10.0.0.1"], rounds=5, subscriptions=True, behaviours=["ok", "ok-bad-subscribe-reply", "ok-close-on-subscribe", "mute", "mute-m3", "bad-sig"], triggers=["ensure", "zc-same", "drop"]), 2),
+        (dict(hosts=["10.0.0.1", "10.0.0.2"], rounds=5, behaviours=["ok", "mute", "mute-m3", "wrong-id", "close-m3"], triggers=["ensure", "drop", "put-garbled:not-json"]), 2 if quick else 3),
+    ]
+    ctx.pmap(_work_reconn, _c10.plan(ctx, rc))
+    ctx.bounds.update(reconnect_configs=[dict(hosts=c["hosts"], behaviours=c["behaviours"], triggers=c["triggers"], deviations=d) for c, d in rc])
     ctx.exhaustive = True
     ctx.bounds.update(records=len(recs), ephemerals=len(ephs), styles=list(pairdrv.STYLES), bits="all bits of every wire byte, signature, identifier, resume tag")
     a = ctx.acc
